@@ -665,8 +665,18 @@ def select_cross_backend(case, rep, env):
             ref.condition_homodyne(meas["modes"][0], meas["phi"], meas["select"] / s, eps=0.0002)
         else:
             ref.condition_heterodyne(meas["modes"][0], complex(*meas["select"]))
+        # conditioning divides the (truncated) unnormalised state by the likelihood of the selected outcome: the Fock
+        # truncation error grows by peak density / density at the outcome = exp(z^2 / 2) of the reference marginal
+        amp = 1.0
+        if meas["kind"] == "homodyne":
+            m0 = meas["modes"][0]
+            cphi, sphi = np.cos(meas["phi"]), np.sin(meas["phi"])
+            qm = cphi * g.mu[m0] + sphi * g.mu[n + m0]
+            qv = cphi ** 2 * g.V[m0, m0] + sphi ** 2 * g.V[n + m0, n + m0] + 2 * cphi * sphi * g.V[m0, n + m0]
+            amp = float(np.exp(min((meas["select"] / s - qm) ** 2 / (2 * qv), 20.0)))
+            rep.observe("select:outcome-z<=%d" % int(np.ceil(abs(meas["select"] / s - qm) / np.sqrt(qv))))
         for b, (mu, Vv) in states.items():
-            tol = 2e-6 * (1 + np.max(np.abs(ref.V))) if b != "fock" else simrun.fock_budget(tau) + 5e-3
+            tol = 2e-6 * (1 + np.max(np.abs(ref.V))) if b != "fock" else simrun.fock_budget(tau) * max(1.0, amp) + 5e-3
             d = max(np.max(np.abs(mu - ref.mu)), np.max(np.abs(Vv - ref.V)))
             if d > tol:
                 kind = "select-conditional-state"
